@@ -86,7 +86,7 @@ fn c02_k8_div3by2_qmaxed() {
 
 // ---------------------------------------------------------------- Uint<1>: everything, all values
 
-//@ prop=C02,C11,C15 tier=quick profile=k8 funcs="Uint::div_rem,Uint::div_rem_vartime,Uint::rem,Uint::rem_vartime,Uint::div_rem_limb,Uint::rem_limb,Uint::div_rem_limb_with_reciprocal,Uint::rem_limb_with_reciprocal,Uint::wrapping_div,Uint::wrapping_div_vartime,Uint::wrapping_rem_vartime,Uint::checked_div,Uint::checked_rem,Div/Rem operators,DivRemLimb,RemLimb" bound="u8 words, Uint<1>: every n and every d != 0" free_bits=16
+//@ prop=C02,C11,C15 tier=quick profile=k8 funcs="Uint::div_rem,Uint::div_rem_vartime,Uint::rem,Uint::rem_vartime,Uint::div_rem_limb,Uint::rem_limb,Uint::div_rem_limb_with_reciprocal,Uint::rem_limb_with_reciprocal,Uint::wrapping_div,Uint::wrapping_div_vartime,Uint::wrapping_rem_vartime,Uint::checked_div,Uint::checked_rem,Div/Rem operators,DivRemLimb,RemLimb" bound="u8 words, Uint<1>: every n and every d != 0" free_bits=16 core=C15
 #[kani::proof]
 #[kani::unwind(4)]
 fn c02_k8_uint1_all_forms() {
@@ -129,7 +129,7 @@ fn c02_k8_uint1_all_forms() {
     kani::cover!(dv == 1);
 }
 
-//@ prop=C02,C11 tier=quick profile=k8 funcs="Uint::checked_div,Uint::checked_rem,CheckedDiv" bound="u8 words, Uint<1..2>: zero divisor, every n: none and no panic" free_bits=16
+//@ prop=C02,C11 tier=quick profile=k8 funcs="Uint::checked_div,Uint::checked_rem,CheckedDiv" bound="u8 words, Uint<1..2>: zero divisor, every n: none and no panic" free_bits=16 core=C11
 #[kani::proof]
 #[kani::unwind(8)]
 fn c02_k8_checked_zero_divisor() {
@@ -228,7 +228,7 @@ macro_rules! div_constructive {
     };
 }
 
-//@ name=c02_k8_uint3_constructive_d3 prop=C02,C11,C15 tier=quick profile=k8 funcs="Uint::div_rem,Uint::div_rem_vartime,div3by2,div2by1" bound="u8 words, Uint<3>: d=[S(2),S(2),free] (3-limb divisor, every top-limb value), n=q*d+r with q in {0..3,12..15}, r within 4 of 0 or d" free_bits=18
+//@ name=c02_k8_uint3_constructive_d3 prop=C02,C11,C15 tier=quick profile=k8 funcs="Uint::div_rem,Uint::div_rem_vartime,div3by2,div2by1" bound="u8 words, Uint<3>: d=[S(2),S(2),free] (3-limb divisor, every top-limb value), n=q*d+r with q in {0..3,12..15}, r within 4 of 0 or d" free_bits=18 core=C15
 div_constructive!(c02_k8_uint3_constructive_d3, 3, Uint::<3>::new([Limb(shaped_word(2)), Limb(shaped_word(2)), Limb(kani::any())]), 4, 2);
 //@ name=c02_k8_uint3_constructive_d2 prop=C02,C11,C15 tier=quick profile=k8 funcs="Uint::div_rem,Uint::div_rem_vartime,div3by2,div2by1" bound="u8 words, Uint<3>: d=[S(2),free,0] (2-limb divisor), n=q*d+r with q in {0..3,508..511}, r within 4 of 0 or d" free_bits=18
 div_constructive!(c02_k8_uint3_constructive_d2, 3, Uint::<3>::new([Limb(shaped_word(2)), Limb(kani::any()), Limb(0)]), 9, 2);
